@@ -29,8 +29,8 @@ HOURLY_PROFILES = {
     "clusters6": {"temporal_cluster": {"n_cluster_upper": 6, "recluster_count": 1}},
     # supplemental time-series column named in the settings and carried by the data (features not fixed / fixed explicitly)
     # (a column name as feeds deliver them: mixed case, with a space)
-    "supp": {"supplemental_time_series_columns": [OCC_NAME]},
-    "supp-explicit": {"train_features": ["temperature"], "supplemental_time_series_columns": [OCC_NAME]},
+    "supp": {"supplemental_time_series_columns": ["Wind Speed", OCC_NAME]},
+    "supp-explicit": {"train_features": ["temperature"], "supplemental_time_series_columns": [OCC_NAME, "Wind Speed"]},
 }
 
 
